@@ -270,6 +270,61 @@ static void vi_case(void) {
   vival_clear(&X); vival_clear(&Y);
 }
 
+/* ---- life cycle of lp_interval_t objects: every object is re-used as an output after every kind of history
+ *   vil copy <src> => <dst after assign / construct_copy / swap>
+ *   vil seta|setb <I> <v> <open> => <I after>      vil collapse <I> <v> => <I after>
+ */
+static void vil_case(void) {
+  lp_interval_t P[3]; vival V[3];
+  for (int i = 0; i < 3; ++i) { vival_init(&V[i]); gen_vival(&V[i]); vi_from(&P[i], &V[i]); }
+  int steps = 3 + (int)rnd(8);
+  for (int s = 0; s < steps; ++s) {
+    unsigned k = rnd(100); int i = (int)rnd(3), j = (int)rnd(3);
+    if (k < 30) {                              /* assign (every combination of point / proper history) */
+      sb_begin("vil", "copy"); sb_sp(); sb_vi(&P[j]); sb_arrow();
+      lp_interval_assign(&P[i], &P[j]);
+      sb_sp(); sb_vi(&P[i]); sb_emit();
+    } else if (k < 42) {                       /* construct_copy + swap */
+      lp_interval_t T; lp_interval_construct_copy(&T, &P[j]);
+      sb_begin("vil", "copy"); sb_sp(); sb_vi(&P[j]); sb_arrow();
+      lp_interval_swap(&T, &P[i]);
+      sb_sp(); sb_vi(&P[i]); sb_emit();
+      lp_interval_destruct(&T);
+    } else if (k < 52) {                       /* swap two pool objects */
+      if (i == j) continue;
+      sb_begin("vil", "copy"); sb_sp(); sb_vi(&P[j]); sb_arrow();
+      lp_interval_swap(&P[i], &P[j]);
+      sb_sp(); sb_vi(&P[i]); sb_emit();
+    } else if (k < 70) {                       /* collapse to a point */
+      vival W; vival_init(&W); gen_vival(&W); lp_value_t v; value_from_q(&v, W.a, W.kind_a);
+      sb_begin("vil", "collapse"); sb_sp(); sb_vi(&P[i]); sb_sp(); sb_val(&v); sb_arrow();
+      lp_interval_collapse_to(&P[i], &v);
+      sb_sp(); sb_vi(&P[i]); sb_emit();
+      lp_value_destruct(&v); vival_clear(&W);
+    } else if (k < 86) {                       /* set one end of a proper interval, keeping a < b */
+      int lower = chance(50);
+      vival W; vival_init(&W); gen_vival(&W); lp_value_t v; value_from_q(&v, W.a, W.kind_a);
+      int ok = lower ? lp_value_cmp(&v, P[i].is_point ? &P[i].a : &P[i].b) < 0 : lp_value_cmp(&P[i].a, &v) < 0;
+      if (ok) {
+        int open = (int)rnd(2);
+        sb_begin("vil", lower ? "seta" : "setb"); sb_sp(); sb_vi(&P[i]); sb_sp(); sb_val(&v); sb_sp(); sb_long(open); sb_arrow();
+        if (lower) lp_interval_set_a(&P[i], &v, open); else lp_interval_set_b(&P[i], &v, open);
+        sb_sp(); sb_vi(&P[i]); sb_emit();
+      }
+      lp_value_destruct(&v); vival_clear(&W);
+    } else {                                   /* arithmetic into a pool object */
+      int a = (int)rnd(3), b = (int)rnd(3);
+      if (P[a].is_point == 0 && (P[a].a.type == LP_VALUE_MINUS_INFINITY || P[a].b.type == LP_VALUE_PLUS_INFINITY)) continue;
+      if (P[b].is_point == 0 && (P[b].a.type == LP_VALUE_MINUS_INFINITY || P[b].b.type == LP_VALUE_PLUS_INFINITY)) continue;
+      int add = chance(50);
+      sb_begin("vi", add ? "add" : "mul"); sb_sp(); sb_str(i == a ? "a" : i == b ? "b" : "p"); sb_sp(); sb_vi(&P[a]); sb_sp(); sb_vi(&P[b]); sb_arrow();
+      if (add) lp_interval_add(&P[i], &P[a], &P[b]); else lp_interval_mul(&P[i], &P[a], &P[b]);
+      sb_sp(); sb_vi(&P[i]); sb_emit();
+    }
+  }
+  for (int i = 0; i < 3; ++i) { lp_interval_destruct(&P[i]); vival_clear(&V[i]); }
+}
+
 int main(int argc, char** argv) {
   uint64_t seed = argc > 1 ? strtoull(argv[1], 0, 10) : 1;
   long n = argc > 2 ? atol(argv[2]) : 1000;
@@ -281,7 +336,7 @@ int main(int argc, char** argv) {
   for (long i = 0; i < total; ++i) {
     if ((only >= 0 && i != only) || i < start) continue;
     lpv_begin_case(seed, i);
-    if (i < EXH_TOTAL) exhaustive_case(i); else if (chance(40)) vi_case(); else random_case();
+    if (i < EXH_TOTAL) exhaustive_case(i); else if (chance(12)) vil_case(); else if (chance(40)) vi_case(); else random_case();
   }
   for (int k = 0; k < NSMALL; ++k) ival_clear(&small[k]);
   free(sb_buf);
